@@ -37,7 +37,8 @@ ASSUMPTIONS = [
 ]
 LIMIT = 2.0
 MAXLEN = {'quick': 300, 'thorough': 600}
-UNIT_DEADLINE = {'quick': 45.0, 'thorough': 60.0}
+UNIT_DEADLINE = {'quick': 25.0, 'thorough': 40.0}
+MAX_TIMEOUTS = 4
 SKIP_DETERMINISM = True     # timings are not bit-reproducible; the enumeration digest is seed-independent instead
 
 PREFIXES = [
@@ -80,6 +81,20 @@ def derive_alphabet():
         for op, av in list(sub) + [(None, None)]:
             if op is C.LITERAL:
                 run += chr(av)
+            else:
+                if 2 <= len(run) <= 12:
+                    runs.add(run.lower())
+                run = ''
+        # 'skeletons': literal runs that continue across optional elements (min repeat 0) and across repeated single
+        # literals (min repeat >= 1), e.g. 'pm' from  P\.?\s{0,10}M\.?
+        run = ''
+        for op, av in list(sub) + [(None, None)]:
+            if op is C.LITERAL:
+                run += chr(av)
+            elif op in (C.MAX_REPEAT, C.MIN_REPEAT) and av[0] == 0:
+                continue
+            elif op in (C.MAX_REPEAT, C.MIN_REPEAT) and av[0] >= 1 and len(av[2]) == 1 and av[2][0][0] is C.LITERAL:
+                run += chr(av[2][0][1])
             else:
                 if 2 <= len(run) <= 12:
                     runs.add(run.lower())
@@ -156,7 +171,29 @@ def all_units():
         for u in (r, r + ' '):
             if u not in us:
                 us.append(u)
+    # every ordered pair of aliquot components (quarter-before-half orders included) and every single component
+    comps = ['N/2', 'S/2', 'E/2', 'W/2', 'NE/4', 'NW/4', 'SE/4', 'SW/4']
+    for a in comps:
+        for b in comps:
+            for u in (a + b, a + b + ' ', a + ' of the ' + b + ', '):
+                if u not in us:
+                    us.append(u)
     return us
+
+
+def punct_units():
+    """literal run + punctuation character (' thru.', ' sec,', 'lot;' ...): a word of a pattern directly followed by a
+    character that the same patterns also accept on its own.  Pumped in a reduced set of contexts."""
+    chars, _ = alphabet()
+    punct = [c for c in chars if not c.isalnum() and not c.isspace()]
+    out = []
+    for r in getattr(derive_alphabet, 'runs', []):
+        if not r.isalpha():
+            continue
+        for c in punct:
+            out.append(' ' + r + c)
+            out.append(r + c + ' ')
+    return out
 
 
 def worker_init(tier):
@@ -179,6 +216,8 @@ def units(tier):
         for pi in (1, 2, 4, 5, 6, 7):
             for a in toks:
                 us.append({'k': 'pump2', 'mode': None, 'p': pi, 'a': a, 'bs': toks})
+    for u in punct_units():
+        us.append({'k': 'pump_punct', 'mode': None, 'u': [u]})
     for mode in MODES[tier]:
         us.append({'k': 'struct', 'mode': mode})
     return us
@@ -188,6 +227,7 @@ def space(tier):
     chars, pats = alphabet()
     return {'bound': f"texts <= {MAXLEN[tier]} characters; {len(all_units())} units ({len(chars)} characters derived from {pats} "
                      f"compiled patterns) x {len(PREFIXES)} prefixes x {len(SUFFIXES)} suffixes x doubling n; "
+                     f"plus {len(punct_units())} 'pattern word + punctuation' units in 5 contexts x 3 suffixes; "
                      f"modes {MODES[tier]}; CPU limit {LIMIT}s",
             'caps_hit': []}
 
@@ -293,6 +333,10 @@ def run_unit(unit, tier):
     if unit['k'] == 'pump':
         for si in range(len(SUFFIXES)):
             pump_family(acc, tier, unit['mode'], unit['p'], unit['u'], si)
+    elif unit['k'] == 'pump_punct':
+        for pi in (1, 2, 3, 4, 10):
+            for si in (0, 3, 5):
+                pump_family(acc, tier, unit['mode'], pi, unit['u'], si)
     elif unit['k'] == 'pump2':
         for b in unit['bs']:
             if b == unit['a']:
